@@ -116,6 +116,12 @@ func runC07(rc *RunCtx) {
 		sc.ConfOneFunc = []int{0, 0, 0, 1, 2}[rc.Scen.Choose(5)]
 	}
 	sc.WrappedTimeouts = !rc.Scen.Has("cutmode") && rc.Scen.Choose(3) == 0
+	if sc.Kind != KSerial && !rc.Scen.Has("cutmode") && !sc.LongSilence && totalGap(sc.Chunks) <= 60*time.Millisecond && rc.Scen.Chance(1, 8) {
+		sc.ZeroNilReads = true // a non-blocking connection: empty reads return (0, nil), many of them before the reply is there
+		for i := range sc.Chunks {
+			sc.Chunks[i].Err = nil
+		}
+	}
 	if sc.Kind != KSerial && sc.ConfOneFunc == 0 && !rc.Scen.Has("cutmode") && rc.Scen.Choose(3) == 0 {
 		sc.ObserveParse = true // the client comes from NewClient with the protocol's functions given in the config
 	}
@@ -144,6 +150,7 @@ func runC07(rc *RunCtx) {
 		if pre, ok := genC07Kind(rc, int(sc.Kind)); ok {
 			pre.ReadTimeout, pre.PortTimeout, pre.TOStyle, pre.Flusher, pre.WriteTimeout, pre.Hooks = sc.ReadTimeout, sc.PortTimeout, sc.TOStyle, sc.Flusher, sc.WriteTimeout, sc.Hooks
 			pre.ObserveParse, pre.ConfOneFunc, pre.WrappedTimeouts = sc.ObserveParse, sc.ConfOneFunc, sc.WrappedTimeouts
+			sc.ZeroNilReads = false // (an abandoned call would poll such a connection for its whole read timeout)
 			pre.Fault = FStall
 			pre.Full = pre.Reply
 			pre.Reply = pre.Reply[:rc.Scen.Choose(2)*rc.Scen.Choose(len(pre.Reply))] // nothing at all, or a strict prefix
